@@ -172,7 +172,7 @@ def gen_cases(c):
         except TooBig:
             continue
         except SpecErr:
-            if r.random() < 0.7:      # keep only some of the error cases
+            if r.random() < 0.4:      # keep only some of the error cases
                 continue
         seen.add(t)
         cases.append((e, 'combo'))
